@@ -4,6 +4,11 @@ import json, os
 HERE = os.path.dirname(os.path.dirname(os.path.abspath(__file__)))
 ALL = ["C%02d" % i for i in range(1, 21)]
 CHECKS = {
+ "C15": dict(
+   technique="TLA+ spec InitIndex.tla (worker pool: dispatch/finish/merge in completion order, link phases after the last merge, and the open-one-at-a-time path): TLC proves confluence of the design over all interleavings for two dependency graphs and refutes the named deviation linkWhileMerging; the implementation is run in child processes over worker counts, permuted directory enumeration, hash seeds and every opening order, and the full query batteries are compared",
+   text="Three workspaces (type links; INCLUDE+EXTENDS; SUBMODULE + 3-level EXTENDS chain) x 12 (quick) / up to 120 configurations each: nthreads in {1,2,3,4,8,16}, permutations of the listing, PYTHONHASHSEED in {0,1,2}, start-up path vs opening one at a time.",
+   note="Real Pool schedules are sampled, not enumerated (stated limit). Trusted: TLC, battery normalisation, the os.listdir/os.walk permutation installed in the child before fortls is imported.",
+   design="4/C15"),
  "C17": dict(
    technique="Preproc.tla carries an `effects` variable that no action changes (NoEffects model-checked); directive files simulated by TLC with host-language expressions as macro bodies and conditions, plus a slot catalogue (#if, #elif, #define+#if, #define+use, #include, pp_defs by file and by command line, function-like macro), are indexed and queried in a child process under a sys.addaudithook monitor, differentially against a benign control session",
    text="Every payload tries to create a canary; the recorded audit trace must contain no exec/compile-and-run, process, socket, import, write or delete event beyond the control's, and the canary must not exist.",
